@@ -798,17 +798,24 @@ def rule_r5(ctx) -> List[R.Inst]:
 # --------------------------------------------------------------------------- R6
 def rule_r6(ctx) -> List[R.Inst]:
     M = ctx.M
-    rfn = M.fn(OSUMAP + ".read")
+    rfn = M.nfn(OSUMAP + ".read")      # (table-driven readers unrolled: sa/normal.py)
     wfn = M.fn(OSUMAP + ".write")
     file = M.mods[rfn.mod].rel
     insts = []
-    # markers the reader looks up
+    # markers the reader looks up: X.index("<text>"), named (ix = lines.index(..)) or used in place
     idx = {}
+
+    def index_text(e):
+        if isinstance(e, ast.Call) and isinstance(e.func, ast.Attribute) and e.func.attr == "index" and len(e.args) == 1 and C.const_str(e.args[0]):
+            return C.const_str(e.args[0])
+        return None
     for n in walk_no_nested(rfn.node):
-        if isinstance(n, ast.Assign) and isinstance(n.targets[0], ast.Name) and isinstance(n.value, ast.Call) and \
-                isinstance(n.value.func, ast.Attribute) and n.value.func.attr == "index" and n.value.args and \
-                C.const_str(n.value.args[0]):
-            idx[n.targets[0].id] = (C.const_str(n.value.args[0]), n)
+        if isinstance(n, ast.Assign) and isinstance(n.targets[0], ast.Name) and index_text(n.value):
+            idx[n.targets[0].id] = (index_text(n.value), n)
+    named = {id(v[1].value) for v in idx.values()}
+    for n in walk_no_nested(rfn.node):
+        if index_text(n) and id(n) not in named:
+            idx.setdefault("@" + index_text(n), (index_text(n), n))
     if len(idx) != 2:
         return [R.undec("C01.R6", "sections", file, rfn.node.lineno, f"expected two section markers, found {len(idx)}")]
     # writer: literal lines emitted, in order (append / extend / list display / helpers: sa/emit.py)
@@ -818,26 +825,36 @@ def rule_r6(ctx) -> List[R.Inst]:
     wtexts = [C.const_str(i.expr).strip() for i in items if i.kind == "one" and C.const_str(i.expr) is not None]
     # reader slices
     calls = []
-    for n in walk_no_nested(rfn.node):
+
+    def dfs(n):
+        # program order (the statements of an unrolled loop share one line, so line numbers do not order them)
         if isinstance(n, ast.Call) and isinstance(n.func, ast.Attribute) and n.func.attr.startswith("_read_file") \
                 and n.args and isinstance(n.args[0], ast.Subscript) and isinstance(n.args[0].slice, ast.Slice):
-            calls.append((n.lineno, n.func.attr, n.args[0].slice, n))
-    calls.sort(key=lambda c: c[0])
+            calls.append((n.lineno, n.func.attr, n.args[0].slice, n, unparse(n.args[0].value)))
+        for ch in ast.iter_child_nodes(n):
+            if not isinstance(ch, (ast.FunctionDef, ast.AsyncFunctionDef, ast.Lambda, ast.ClassDef)):
+                dfs(ch)
+    dfs(rfn.node)
     names = list(idx)
     order_r = sorted(names, key=lambda v: idx[v][1].lineno)
 
-    def bound(x):
+    def bound(x, seq="", upper=False):
         """None | (var, delta)"""
         if x is None:
             return None
+        if not upper and isinstance(x, ast.Constant) and x.value == 0:
+            return None                          # [0:k] is [:k]
+        if upper and isinstance(x, ast.Call) and isinstance(x.func, ast.Name) and x.func.id == "len" and len(x.args) == 1 and unparse(x.args[0]) == seq:
+            return None                          # [k:len(seq)] is [k:]
         if isinstance(x, ast.Name):
             return (x.id, 0)
-        if isinstance(x, ast.BinOp) and isinstance(x.op, ast.Add) and isinstance(x.left, ast.Name) and \
-                isinstance(x.right, ast.Constant):
-            return (x.left.id, x.right.value)
+        if index_text(x):
+            return ("@" + index_text(x), 0)
+        if isinstance(x, ast.BinOp) and isinstance(x.op, ast.Add) and isinstance(x.right, ast.Constant) and bound(x.left) not in (None, ("?", 0)):
+            return (bound(x.left)[0], x.right.value)
         return ("?", 0)
 
-    slices = {c[1]: (bound(c[2].lower), bound(c[2].upper)) for c in calls}
+    slices = {c[1]: (bound(c[2].lower, c[4]), bound(c[2].upper, c[4], True)) for c in calls}
     want = {"_read_file_metadata", "_read_file_timing_points", "_read_file_hit_objects"}
     if set(slices) != want:
         return [R.undec("C01.R6", "sections", file, rfn.node.lineno, f"section readers found: {sorted(slices)}")]
